@@ -60,12 +60,20 @@ func (E *Engine) typesPkg(name string) *types.Package {
 // conditional frames then work per array, without the lazy "epoch" fallback).
 func (E *Engine) encodeFunc(key string) (enc *FnEnc, err error) {
 	preset := map[string]string{}
+	var presetTypes []types.Type
 	for pass := 0; pass < 5; pass++ {
-		enc, err = E.encodeOnce(key, preset)
+		enc, err = E.encodeOnce(key, preset, presetTypes)
 		if err != nil {
 			return enc, err
 		}
 		grew := false
+		if len(enc.R.ifaceOrder) > len(presetTypes) {
+			grew = true
+			presetTypes = nil
+			for _, m := range enc.R.ifaceOrder {
+				presetTypes = append(presetTypes, enc.R.ifaceTypes[m])
+			}
+		}
 		for k, s := range enc.R.heapDecl {
 			if strings.HasPrefix(k, "ghost!") || strings.HasPrefix(k, "G_") && enc.stableGlobals[k] {
 				continue
@@ -82,7 +90,7 @@ func (E *Engine) encodeFunc(key string) (enc *FnEnc, err error) {
 	return enc, nil
 }
 
-func (E *Engine) encodeOnce(key string, preset map[string]string) (enc *FnEnc, err error) {
+func (E *Engine) encodeOnce(key string, preset map[string]string, presetTypes []types.Type) (enc *FnEnc, err error) {
 	fn := E.L.Funcs[key]
 	fc := E.CS.Funcs[key]
 	if fn == nil {
@@ -104,6 +112,9 @@ func (E *Engine) encodeOnce(key string, preset map[string]string) (enc *FnEnc, e
 			}
 		}
 	}()
+	for _, t := range presetTypes {
+		enc.R.ifaceCtor(t)
+	}
 	f := enc.newFrame(fn, "")
 	f.isTop = true
 	f.contract = fc
